@@ -375,4 +375,283 @@ theorem same_reverseNode (w : Nat) (g : Graph) (s : State) (n v : Nat) (s' : Sta
 
 theorem same_finishTraverse (w : Nat) (s : State) (n v : Nat) : Same w s (finishTraverse s n v) := quiet_setNd w s n _
 
+/-! ## the acting worker: path operations -/
+
+theorem fr_setWd (w : Nat) (s : State) (f : WorkerD → WorkerD) : Fr w s (s.setWd w f) :=
+  ⟨fun _ _ _ h => h, fun _ _ _ h => Or.inl h, fun v hv => wd_setWd_ne s w v f hv, fun h => h,
+    workers_length_setWd s w f, rfl⟩
+
+theorem loc_setWd {g : Graph} {w : Nat} {s : State} (f : WorkerD → WorkerD) (hw : w < s.workers.length) (l : Loc g w s)
+    (hp : ∀ x ∈ (f (s.wd w)).path, x < g.nodes.length ∧ relevant g w x = true) : Loc g w (s.setWd w f) where
+  pathOk := by rw [wd_setWd_eq s w f hw]; exact hp
+  drop := fun c h => l.drop c h
+
+theorem walk_setWd {g : Graph} {w : Nat} {s : State} (f : WorkerD → WorkerD) (hw : w < s.workers.length)
+    (hsh : (f (s.wd w)).path = [] ∨ ∃ d, PShape g (f (s.wd w)).path d)
+    (ha : ∀ x ∈ (f (s.wd w)).path, ¬ Dr s w (g.node x).cls) : Walk g w (s.setWd w f) where
+  sh := by rw [wd_setWd_eq s w f hw]; exact hsh
+  a := by rw [wd_setWd_eq s w f hw]; exact ha
+
+def raises : Flow → Bool
+  | .raise _ => true
+  | _ => false
+
+/-- what a piece of the loop body of worker `w` guarantees -/
+def Post (g : Graph) (w : Nat) (s : State) (r : Step) : Prop :=
+  Fr w s r.1 ∧ Loc g w r.1 ∧ (raises r.2.2 = false → Walk g w r.1) ∧ (PcC g w r.1 ∨ (r.1.wd w).pc = (s.wd w).pc)
+
+theorem Post.of_same {g : Graph} {w : Nat} {s s1 : State} {r : Step} (a : Same w s s1) (p : Post g w s1 r) : Post g w s r :=
+  ⟨a.1.fr.trans p.1, p.2.1, p.2.2.1, p.2.2.2.imp id (fun h => h.trans a.2)⟩
+
+theorem Post.raise {g : Graph} {w : Nat} {s : State} (l : Loc g w s) (evs : List Event) (e : String) :
+    Post g w s (s, evs, .raise e) :=
+  ⟨Fr.refl w s, l, fun h => by simp [raises] at h, Or.inr rfl⟩
+
+theorem pc_setWd_path (s : State) (w : Nat) (p : WorkerD → List Nat) :
+    ((s.setWd w (fun d => { d with path := p d })).wd w).pc = (s.wd w).pc := by
+  rcases wd_setWd_cases s w (fun d => { d with path := p d }) with ⟨h, _⟩ | ⟨_, h⟩
+  · rw [h]
+  · rw [h]
+
+theorem post_pop {g : Graph} {w : Nat} {s : State} (hw : w < s.workers.length) (l : Loc g w s) (k : Walk g w s)
+    (evs : List Event) : Post g w s (popPath s w, evs, .cont) := by
+  refine ⟨fr_setWd w s _, loc_setWd _ hw l ?_, fun _ => walk_setWd _ hw ?_ ?_, Or.inr (pc_setWd_path s w _)⟩
+  · intro x hx; exact l.pathOk x (List.dropLast_subset _ hx)
+  · rcases k.sh with h | ⟨d, h⟩
+    · left; show (s.wd w).path.dropLast = []; rw [h]; rfl
+    · exact h.dropLast
+  · intro x hx; exact k.a x (List.dropLast_subset _ hx)
+
+/-- the root is never dropped -/
+theorem root_not_dropped {g : Graph} (H : Hyp g) {w : Nat} {s : State} (l : Loc g w s) : ¬ Dr s w (g.node g.root).cls := by
+  intro h
+  obtain ⟨x, h1, h2, h3, h4, _, _⟩ := l.drop _ h
+  have hr : relevant g w g.root = true := by unfold relevant; rw [H.top.1]; rfl
+  have := H.uniq w x g.root h1 H.wf.root_lt h2 h3 hr
+  rw [this] at h4
+  exact h4 H.top.2
+
+theorem post_root {g : Graph} (H : Hyp g) {w : Nat} {s : State} (hw : w < s.workers.length) (l : Loc g w s)
+    (evs : List Event) : Post g w s (s.setWd w (fun d => { d with path := [g.root] }), evs, .cont) := by
+  have hr : relevant g w g.root = true := by unfold relevant; rw [H.top.1]; rfl
+  refine ⟨fr_setWd w s _, loc_setWd _ hw l ?_, fun _ => walk_setWd _ hw (Or.inr ⟨true, .one g.root⟩) ?_,
+    Or.inr (pc_setWd_path s w _)⟩
+  · intro x hx
+    have : x = g.root := by simpa using hx
+    rw [this]; exact ⟨H.wf.root_lt, hr⟩
+  · intro x hx
+    have : x = g.root := by simpa using hx
+    rw [this]; exact root_not_dropped H l
+
+/-- `pick_child` with the reason: the child is not dropped from this parent -/
+theorem pickChild_rel' (g : Graph) (s : State) (n w c : Nat) (s' : State) (h : pickChild g s n w = some (c, s')) :
+    c ∈ (g.node n).cleanup.map (·.1) ∧ relevant g w c = true ∧
+      ¬ w ∈ regWorkers (s.cr (g.node n).cls).droppedCleanup (some (g.node c).cls) ∧
+      s' = s.setCr (g.node c).cls (fun r => { r with pickedBySetup := regAdd r.pickedBySetup ((g.node n).cls, w) }) := by
+  unfold pickChild at h
+  dsimp only at h
+  split at h
+  · simp at h
+  · rename_i c' rest heq
+    simp only [Option.some.injEq, Prod.mk.injEq] at h
+    have : c' ∈ stableSort (fun a b => keyLe (pickKey g s false a) (pickKey g s false b))
+        (((g.node n).cleanup.map (·.1)).filter (fun c =>
+          relevant g w c && !(regWorkers (s.cr (g.node n).cls).droppedCleanup (some (g.node c).cls)).contains w)) := by
+      rw [heq]; exact List.mem_cons_self
+    have := List.mem_filter.mp (mem_stableSort _ _ _ this)
+    rw [Bool.and_eq_true] at this
+    rw [← h.1]
+    refine ⟨this.1, this.2.1, ?_, h.2.symm⟩
+    have h3 := this.2.2
+    simpa using h3
+
+theorem post_pushChild {g : Graph} (H : Hyp g) {w : Nat} {s s2 : State} {next c : Nat} (hw : w < s.workers.length)
+    (l : Loc g w s) (k : Walk g w s) (hlast : (s.wd w).path.getLast? = some next) (hdn : PShape g (s.wd w).path true)
+    (hp : pickChild g s next w = some (c, s2)) (evs : List Event) : Post g w s (pushPath s2 w c, evs, .cont) := by
+  obtain ⟨hc, hrel, hnd, hs2⟩ := pickChild_rel' g s next w c s2 hp
+  obtain ⟨hnext, _⟩ := l.pathOk next (List.mem_of_getLast? hlast)
+  obtain ⟨q, hq, hqc⟩ := List.mem_map.mp hc
+  have hclt : c < g.nodes.length := by rw [← hqc]; exact H.wf.cleanup_lt next q hq
+  have hsym : next ∈ (g.node c).setup.map (·.1) := (H.sym next hnext c hclt).mpr hc
+  have h1 : Same w s s2 := by rw [hs2]; exact quiet_setCr w s _ _ (fun _ => rfl)
+  have l2 := h1.1.loc l
+  have k2 := h1.1.walk k
+  have hw2 : w < s2.workers.length := by rw [h1.1.wl]; exact hw
+  refine Post.of_same h1 ⟨fr_setWd w s2 _, loc_setWd _ hw2 l2 ?_, fun _ => walk_setWd _ hw2 ?_ ?_, Or.inr (pc_setWd_path s2 w _)⟩
+  · intro x hx
+    rcases List.mem_append.mp hx with hx | hx
+    · exact l2.pathOk x hx
+    · rw [List.mem_singleton.mp hx]; exact ⟨hclt, hrel⟩
+  · right
+    refine ⟨true, .down _ next c ?_ ?_ hsym⟩
+    · rw [h1.1.path]; exact hdn
+    · rw [h1.1.path]; exact hlast
+  · intro x hx
+    rcases List.mem_append.mp hx with hx | hx
+    · exact k2.a x hx
+    · rw [List.mem_singleton.mp hx]
+      intro hdr
+      obtain ⟨x', a1, a2, a3, _, a5, _⟩ := l.drop _ ((h1.1.dr w _).mp hdr)
+      have hx' : x' = c := H.uniq w x' c a1 hclt a2 a3 hrel
+      subst hx'
+      obtain ⟨q', hq', hq'n⟩ := List.mem_map.mp hsym
+      have := a5 q' hq'
+      rw [hq'n] at this
+      exact hnd this
+
+theorem post_pushParent {g : Graph} (H : Hyp g) {w : Nat} {s s2 : State} {next p : Nat} (hw : w < s.workers.length)
+    (l : Loc g w s) (k : Walk g w s) (hlast : (s.wd w).path.getLast? = some next)
+    (hp : pickParent g s next w = some (p, s2)) (evs : List Event) : Post g w s (pushPath s2 w p, evs, .cont) := by
+  obtain ⟨hc, hrel, hs2⟩ := pickParent_rel g s next w p s2 hp
+  obtain ⟨hnext, hnrel⟩ := l.pathOk next (List.mem_of_getLast? hlast)
+  obtain ⟨q, hq, hqc⟩ := List.mem_map.mp hc
+  have hplt : p < g.nodes.length := by rw [← hqc]; exact H.wf.setup_lt next q hq
+  have hsym : next ∈ (g.node p).cleanup.map (·.1) := (H.sym p hplt next hnext).mp hc
+  have h1 : Same w s s2 := by rw [hs2]; exact quiet_setCr w s _ _ (fun _ => rfl)
+  have l2 := h1.1.loc l
+  have k2 := h1.1.walk k
+  have hw2 : w < s2.workers.length := by rw [h1.1.wl]; exact hw
+  obtain ⟨d, hd⟩ : ∃ d, PShape g (s.wd w).path d := by
+    rcases k.sh with h | h
+    · rw [h] at hlast; simp at hlast
+    · exact h
+  refine Post.of_same h1 ⟨fr_setWd w s2 _, loc_setWd _ hw2 l2 ?_, fun _ => walk_setWd _ hw2 ?_ ?_, Or.inr (pc_setWd_path s2 w _)⟩
+  · intro x hx
+    rcases List.mem_append.mp hx with hx | hx
+    · exact l2.pathOk x hx
+    · rw [List.mem_singleton.mp hx]; exact ⟨hplt, hrel⟩
+  · right
+    refine ⟨false, .up _ d next p ?_ ?_ hsym⟩
+    · rw [h1.1.path]; exact hd
+    · rw [h1.1.path]; exact hlast
+  · intro x hx
+    rcases List.mem_append.mp hx with hx | hx
+    · exact k2.a x hx
+    · rw [List.mem_singleton.mp hx]
+      intro hdr
+      obtain ⟨x', a1, a2, a3, _, _, a6⟩ := l.drop _ ((h1.1.dr w _).mp hdr)
+      have hx' : x' = p := H.uniq w x' p a1 hplt a2 a3 hrel
+      subst hx'
+      obtain ⟨q', hq', hq'n⟩ := List.mem_map.mp hsym
+      have := (cleanup_ready_iff g s x' w).mp a6 q' hq' (by rw [hq'n]; exact hnrel)
+      rw [hq'n] at this
+      exact k.a next (List.mem_of_getLast? hlast) ⟨_, this⟩
+
+/-! ## dropping a node as a child of all its parents -/
+
+theorem mem_dropAll (g : Graph) (next w : Nat) (l : List (Nat × List String)) (s : State)
+    (hl : ∀ q ∈ l, (g.node q.1).cls < s.regs.length) (cp c u : Nat) :
+    u ∈ regWorkers ((l.foldl (fun s x => dropChild g s x.1 next w) s).cr cp).droppedCleanup (some c) ↔
+      u ∈ regWorkers (s.cr cp).droppedCleanup (some c) ∨
+        (u = w ∧ c = (g.node next).cls ∧ ∃ q ∈ l, (g.node q.1).cls = cp) := by
+  induction l generalizing s with
+  | nil => simp
+  | cons a r ih =>
+    simp only [List.foldl_cons]
+    have hl' : ∀ q ∈ r, (g.node q.1).cls < (dropChild g s a.1 next w).regs.length := by
+      intro q hq
+      unfold dropChild
+      rw [regs_length_setCr]
+      exact hl q (List.mem_cons_of_mem _ hq)
+    rw [ih _ hl']
+    have hstep : u ∈ regWorkers ((dropChild g s a.1 next w).cr cp).droppedCleanup (some c) ↔
+        u ∈ regWorkers (s.cr cp).droppedCleanup (some c) ∨ (u = w ∧ c = (g.node next).cls ∧ (g.node a.1).cls = cp) := by
+      unfold dropChild
+      by_cases hcp : cp = (g.node a.1).cls
+      · subst hcp
+        rw [cr_setCr_eq s _ _ (hl a List.mem_cons_self)]
+        rw [mem_regWorkers_regAdd]
+        constructor
+        · rintro (h | ⟨h1, h2⟩)
+          · exact Or.inl h
+          · exact Or.inr ⟨h1, h2, rfl⟩
+        · rintro (h | ⟨h1, h2, _⟩)
+          · exact Or.inl h
+          · exact Or.inr ⟨h1, h2⟩
+      · rw [cr_setCr_ne s _ _ _ hcp]
+        constructor
+        · intro h; exact Or.inl h
+        · rintro (h | ⟨_, _, h3⟩)
+          · exact h
+          · exact absurd h3.symm hcp
+    rw [hstep]
+    constructor
+    · rintro ((h | ⟨h1, h2, h3⟩) | ⟨h1, h2, q, hq, h3⟩)
+      · exact Or.inl h
+      · exact Or.inr ⟨h1, h2, a, List.mem_cons_self, h3⟩
+      · exact Or.inr ⟨h1, h2, q, List.mem_cons_of_mem _ hq, h3⟩
+    · rintro (h | ⟨h1, h2, q, hq, h3⟩)
+      · exact Or.inl (Or.inl h)
+      · rcases List.mem_cons.mp hq with hq | hq
+        · subst hq; exact Or.inl (Or.inr ⟨h1, h2, h3⟩)
+        · exact Or.inr ⟨h1, h2, q, hq, h3⟩
+
+theorem dropAll_frame (g : Graph) (next w : Nat) (l : List (Nat × List String)) (s : State) :
+    (∀ v, (l.foldl (fun s x => dropChild g s x.1 next w) s).wd v = s.wd v) ∧
+    (l.foldl (fun s x => dropChild g s x.1 next w) s).hidden = s.hidden ∧
+    (l.foldl (fun s x => dropChild g s x.1 next w) s).workers.length = s.workers.length ∧
+    (l.foldl (fun s x => dropChild g s x.1 next w) s).regs.length = s.regs.length := by
+  refine ⟨fun v => ?_, ?_, ?_, ?_⟩
+  · exact foldl_preserves (fun s => s.wd v) (fun s x => dropChild g s x.1 next w) (fun _ _ => rfl) l s
+  · exact foldl_preserves (fun s => s.hidden) (fun s x => dropChild g s x.1 next w) (fun _ _ => rfl) l s
+  · exact foldl_preserves (fun s => s.workers.length) (fun s x => dropChild g s x.1 next w) (fun _ _ => rfl) l s
+  · exact foldl_preserves (fun s => s.regs.length) (fun s x => dropChild g s x.1 next w) (fun s b => by unfold dropChild; exact regs_length_setCr _ _ _) l s
+
+/-- the effect of `for p in next.setup_nodes: p.drop_child(next, w)` on a cleanup-ready node at the end of a path -/
+theorem drop_step {g : Graph} (H : Hyp g) {w : Nat} {s : State} {next : Nat} (hcls : ClsIn g s) (l : Loc g w s)
+    (hlast : (s.wd w).path.getLast? = some next) (hc : isCleanupReady g s next w = true) :
+    Fr w s ((g.node next).setup.foldl (fun s x => dropChild g s x.1 next w) s) ∧
+    Loc g w ((g.node next).setup.foldl (fun s x => dropChild g s x.1 next w) s) ∧
+    (∀ c, Dr ((g.node next).setup.foldl (fun s x => dropChild g s x.1 next w) s) w c → Dr s w c ∨ c = (g.node next).cls) := by
+  obtain ⟨hnext, hnrel⟩ := l.pathOk next (List.mem_of_getLast? hlast)
+  have hl : ∀ q ∈ (g.node next).setup, (g.node q.1).cls < s.regs.length :=
+    fun q hq => hcls _ (H.wf.setup_lt next q hq)
+  have hm := mem_dropAll g next w (g.node next).setup s hl
+  obtain ⟨f1, f2, f3, f4⟩ := dropAll_frame g next w (g.node next).setup s
+  have hmono : ∀ cp c u, u ∈ regWorkers (s.cr cp).droppedCleanup (some c) →
+      u ∈ regWorkers (((g.node next).setup.foldl (fun s x => dropChild g s x.1 next w) s).cr cp).droppedCleanup (some c) :=
+    fun cp c u h => (hm cp c u).mpr (Or.inl h)
+  refine ⟨⟨hmono, fun cp c u h => ?_, fun v _ => f1 v, fun h => by rw [f2]; exact h, f3, f4⟩, ⟨?_, fun c hdr => ?_⟩,
+    fun c hdr => ?_⟩
+  · rcases (hm cp c u).mp h with h | ⟨h, _⟩
+    · exact Or.inl h
+    · exact Or.inr h
+  · rw [f1 w]; exact l.pathOk
+  · obtain ⟨cp, h⟩ := hdr
+    rcases (hm cp c w).mp h with h | ⟨_, h2, q, hq, _⟩
+    · exact (l.drop c ⟨cp, h⟩).mono (fun cp c h => hmono cp c w h)
+    · refine ⟨next, hnext, h2.symm, hnrel, ?_, fun q' hq' => ?_, isCleanupReady_mono g s _ next w (fun cp c h => hmono cp c w h) hc⟩
+      · intro he; rw [he] at hq; simp at hq
+      · exact (hm _ c w).mpr (Or.inr ⟨rfl, h2, q', hq', rfl⟩)
+  · obtain ⟨cp, h⟩ := hdr
+    rcases (hm cp c w).mp h with h | ⟨_, h2, _⟩
+    · exact Or.inl ⟨cp, h⟩
+    · exact Or.inr h2
+
+/-- … after which the node is popped: nothing left on the path is dropped -/
+theorem walk_pop_after_drop {g : Graph} (H : Hyp g) {w : Nat} {s s3 : State} {next : Nat} (hw : w < s3.workers.length)
+    (l : Loc g w s) (k : Walk g w s) (hlast : (s.wd w).path.getLast? = some next) (hdn : PShape g (s.wd w).path true)
+    (hc : isCleanupReady g s next w = true) (hpath : (s3.wd w).path = (s.wd w).path)
+    (hdr : ∀ c, Dr s3 w c → Dr s w c ∨ c = (g.node next).cls) : Walk g w (popPath s3 w) := by
+  obtain ⟨hnext, hnrel⟩ := l.pathOk next (List.mem_of_getLast? hlast)
+  refine walk_setWd _ hw ?_ ?_
+  · show (s3.wd w).path.dropLast = [] ∨ ∃ d, PShape g (s3.wd w).path.dropLast d
+    rw [hpath]; exact hdn.dropLast
+  · show ∀ x ∈ (s3.wd w).path.dropLast, ¬ Dr s3 w (g.node x).cls
+    rw [hpath]
+    intro x hx hd
+    have hxp : x ∈ (s.wd w).path := List.dropLast_subset _ hx
+    rcases hdr _ hd with h | h
+    · exact k.a x hxp h
+    · obtain ⟨hxl, hxr⟩ := l.pathOk x hxp
+      have hxn : x = next := H.uniq w x next hxl hnext h hxr hnrel
+      rw [hxn] at hx
+      obtain ⟨y, hy, hny⟩ := hdn.succ rfl next hx
+      obtain ⟨hyl, hyr⟩ := l.pathOk y hy
+      have hyc : y ∈ (g.node next).cleanup.map (·.1) := (H.sym next hnext y hyl).mp hny
+      obtain ⟨q, hq, hqy⟩ := List.mem_map.mp hyc
+      have := (cleanup_ready_iff g s next w).mp hc q hq (by rw [hqy]; exact hyr)
+      rw [hqy] at this
+      exact k.a y hy ⟨_, this⟩
+
 end I2N.Trav.Clean
